@@ -1084,6 +1084,20 @@ func (fg *FuncGen) loopHead(li *loopInfo) {
 			}
 		}
 	}
+	// engine fact, true by construction: every recorded call happened before now
+	if sq, ok := st.ghost["$seq"]; ok {
+		for _, gname := range sortedKeys(ms.ghosts) {
+			if !strings.HasPrefix(gname, "$callseq:") {
+				continue
+			}
+			n := strings.TrimPrefix(gname, "$callseq:")
+			cs, ok1 := st.ghost[gname]
+			nc, ok2 := st.ghost["$calls:"+n]
+			if ok1 && ok2 {
+				fg.assume(fmt.Sprintf("(forall ((sq$k Int)) (! (=> (and (<= 0 sq$k) (< sq$k %s)) (and (<= 0 (select %s sq$k)) (< (select %s sq$k) %s))) :pattern ((select %s sq$k))))", nc, cs, cs, sq, cs))
+			}
+		}
+	}
 	fg.cur = st
 	li.headSt = st.clone()
 	li.headReach = fg.reach
